@@ -1,6 +1,6 @@
 (* Props/C09.v -- statements claimed for C09 (connectivity queries vs brute-force counting). *)
 From Coq Require Import List Arith ZArith Permutation.
-From LaPyV Require Import Base.ListAux Model.TetMesh Model.TriaAdj Proofs.TriaAdjP Proofs.LoopsP.
+From LaPyV Require Import Base.ListAux Model.TetMesh Model.TriaAdj Proofs.TriaAdjP Proofs.LoopsP Proofs.LoopsDegP.
 Import ListNotations.
 
 (* the symmetric adjacency value of (i,j) is the number of triangles containing both *)
@@ -72,6 +72,29 @@ Theorem C09_boundary_loops_are_simple_cycles_using_every_boundary_half_edge_once
                 Permutation (flat_map loop_edges loops) (boundary_table ts).
 Proof. exact boundary_loops_ok. Qed.
 Print Assumptions C09_boundary_loops_are_simple_cycles_using_every_boundary_half_edge_once.
+
+(* In an oriented mesh (no half-edge twice) a boundary half-edge is a half-edge whose reverse does not occur, and every vertex has
+   as many incoming as outgoing boundary half-edges (each triangle at v contributes one half-edge leaving v and one entering it) *)
+Theorem C09_boundary_half_edges_enter_and_leave_every_vertex_equally_often : forall ts, Forall distinct_tri ts ->
+  (forall i j, hedge_count ts i j <= 1) -> forall v,
+  count_if (fun e => Nat.eqb (snd e) v) (boundary_table ts) = count_if (fun e => Nat.eqb (fst e) v) (boundary_table ts).
+Proof. exact boundary_degree_balance. Qed.
+Print Assumptions C09_boundary_half_edges_enter_and_leave_every_vertex_equally_often.
+
+(* ... so the permutation hypothesis [FG] above follows from its first part alone: on every manifold, open, oriented mesh in which
+   no vertex has two outgoing boundary half-edges (the boundary is vertex-manifold: no two boundary fans meet in a point)
+   boundary_loops terminates and returns simple cycles using every boundary half-edge exactly once *)
+Theorem C09_boundary_loops_correct_whenever_no_vertex_has_two_outgoing_boundary_half_edges : forall ts, Forall distinct_tri ts ->
+  is_manifold ts = true -> is_closed ts = false -> is_oriented ts = true -> succ_unique (boundary_table ts) ->
+  exists loops, boundary_loops ts = Ok loops /\ Forall (fun l => l <> [] /\ NoDup l) loops /\
+                Permutation (flat_map loop_edges loops) (boundary_table ts).
+Proof. exact boundary_loops_ok_vertex_manifold. Qed.
+Print Assumptions C09_boundary_loops_correct_whenever_no_vertex_has_two_outgoing_boundary_half_edges.
+
+Example C09_vertex_manifold_hypotheses_are_satisfiable :
+  Forall distinct_tri c09_square /\ is_manifold c09_square = true /\ is_closed c09_square = false /\ is_oriented c09_square = true /\
+  succ_unique (boundary_table c09_square).
+Proof. exact vertex_manifold_hypotheses_satisfiable. Qed.
 
 Theorem C09_boundary_loops_none_for_closed_meshes : forall ts, is_manifold ts = true -> is_closed ts = true -> boundary_loops ts = Ok [].
 Proof. exact boundary_loops_closed. Qed.
